@@ -144,7 +144,7 @@ func main() {
 		childMain()
 		return
 	}
-	run := evid.New("C10", "exploration")
+	run := evid.New("C10", "fault_enumeration")
 	defer sbx.RemoveBase()
 	run.Rule = "Redirect graphs (depth 0..4 and endless loops of period 1..3) over origins {A=127.0.0.1:p, same host other port, other host 127.0.0.2 (same port number), other host NAME localhost on the same listener, http->https, https->http} x status {301,302,303,307,308} x Location form {absolute, scheme-relative, path-absolute, query-only, ./segment, segment, empty, missing, 6 malformed strings}, scripted per chain on six in-driver listeners, for requests {batch download/upload, locks list/verify/create, unlock, object verify, storage GET/PUT through the real basic adapters} x access {none, basic preconfigured, basic discovered by 401, multistage helper} x credential sources {URL userinfo in lfs.url / remote url, ~/.netrc, `git credential` helper program, askpass program, ssh git-lfs-authenticate header (fake ssh), injected creds.CredentialHelper, in-memory cache across 1..3 requests of one client, http.<url>.extraheader, batch-issued action Authorization (Basic, other scheme) and ?token=} x 401 scripts (no-credentials challenge at terminal/all nodes; 0..4 rejections of presented credentials) + decoys (foreign remote url / pushurl with userinfo). Families: systematic table role x relation x source (a seed-rotated third in the quick tier), loop table role x cycle pattern, seeded random sessions, and process-level `git lfs fetch|push|locks|locks --verify|lock` with the real binary. Oracle per received request: origin encoded in every Authorization value / ?token == scheme://Host the request was addressed to (netrc: host name only); no hop from an https node to an http node is ever followed and no authenticated request reaches http in a chain begun on https; requests per walk of a chain <= 5 and identical for every endless loop. Class = (mode, request role, access, source, depth, relation of first hop, Location form, 401 policy, rejections) of the case's featured chain."
 	run.Assumptions = []string{
